@@ -56,6 +56,19 @@ enum Py {
     Str(Vec<u8>),
     List(Vec<Py>),
     Other(Option<String>),
+    /// instance of a subclass of the built-in type of the inner object (`how` names the subclass);
+    /// `how == "tuple"`: the tuple of the elements of the inner list
+    Sub(String, Box<Py>),
+}
+
+/// the object an instance of a subclass is *as a value*: subclass wrappers removed (tuples stay)
+fn plain(p: &Py) -> Py {
+    match p {
+        Py::Sub(how, inner) if how != "tuple" => plain(inner),
+        Py::Sub(how, inner) => Py::Sub(how.clone(), Box::new(plain(inner))),
+        Py::List(l) => Py::List(l.iter().map(plain).collect()),
+        other => other.clone(),
+    }
 }
 
 fn py_int(n: i128) -> Py {
@@ -73,6 +86,7 @@ fn py_to_sexp(p: &Py) -> Sexp {
         Py::List(l) => Sexp::call("pl", l.iter().map(py_to_sexp).collect()),
         Py::Other(None) => Sexp::atom("other"),
         Py::Other(Some(w)) => Sexp::call("other", vec![Sexp::atom(w.clone())]),
+        Py::Sub(how, inner) => Sexp::call("sub", vec![Sexp::atom(how.clone()), py_to_sexp(inner)]),
     }
 }
 
@@ -105,6 +119,18 @@ fn sexp_to_py(s: &Sexp) -> Option<Py> {
         }
         ("pl", xs) => Some(Py::List(xs.iter().map(sexp_to_py).collect::<Option<Vec<_>>>()?)),
         ("other", [w]) => Some(Py::Other(Some(w.as_atom()?.to_string()))),
+        ("sub", [how, inner]) => {
+            let how = how.as_atom()?;
+            let inner = sexp_to_py(inner)?;
+            let ok = match how {
+                "strsub" | "strmixin" | "strenum" => matches!(inner, Py::Str(_)),
+                "intsub" | "intenum" => matches!(inner, Py::Int(_)),
+                "floatsub" => matches!(inner, Py::Float(_) | Py::NonFinite(_)),
+                "listsub" | "tuple" => matches!(inner, Py::List(_)),
+                _ => false,
+            };
+            ok.then(|| Py::Sub(how.to_string(), Box::new(inner)))
+        }
         _ => None,
     }
 }
@@ -145,6 +171,8 @@ fn py_kind(p: &Py) -> Option<Kind> {
         Py::Str(_) => Kind::Str,
         Py::List(_) => Kind::List,
         Py::NonFinite(_) | Py::Other(_) => return None,
+        Py::Sub(how, _) if how == "tuple" => return None,
+        Py::Sub(_, inner) => return py_kind(inner),
     })
 }
 
@@ -163,6 +191,9 @@ fn spec_from_py(p: &Py) -> Result<FieldValue, &'static str> {
         Py::NonFinite(_) => Err("non-finite-float"),
         Py::Str(b) => Ok(FieldValue::String(Arc::from(String::from_utf8(b.clone()).unwrap()))),
         Py::Other(_) => Err("unsupported-type"),
+        // a tuple is not a list; an instance of a str/int/float/list subclass IS a str/int/float/list
+        Py::Sub(how, _) if how == "tuple" => Err("unsupported-type"),
+        Py::Sub(_, inner) => spec_from_py(inner),
         Py::List(l) => {
             let mut out = vec![];
             for x in l {
@@ -195,7 +226,7 @@ fn spec_to_py(v: &FieldValue) -> Option<Py> {
 
 /// A list (at any depth) whose direct int elements lie on both sides of 2^63 (all in range).
 fn has_int_repr_mix(p: &Py) -> bool {
-    match p {
+    match &plain(p) {
         Py::List(l) => {
             let ints: Vec<i128> = l
                 .iter()
@@ -661,7 +692,7 @@ impl C27 {
             .collect()
     }
 
-    fn run_python(&self, schema: &str, query: &str, args: &BTreeMap<String, Py>, items: &[Item]) -> (RunResult, String) {
+    fn run_python(&self, schema: &str, query: &str, args: &BTreeMap<String, Py>, items: &[Item], wrap: bool) -> (RunResult, String) {
         let args_json: serde_json::Map<String, serde_json::Value> =
             args.iter().map(|(k, v)| (k.clone(), serde_json::Value::String(py_to_sexp(v).to_string()))).collect();
         let items_json: Vec<serde_json::Value> = items
@@ -672,6 +703,7 @@ impl C27 {
             .collect();
         let resp = self.call(serde_json::json!({
             "op": "query", "schema": schema, "query": query, "args": args_json, "items": items_json, "limit": ROW_LIMIT,
+            "wrap_subclasses": wrap,
         }));
         if let Some(rows) = resp.get("rows").and_then(|r| r.as_array()) {
             (RunResult::Rows(rows.iter().map(|r| r.as_str().unwrap().to_string()).collect()), "accepted".to_string())
@@ -732,13 +764,13 @@ impl C27 {
             Ok(Err(e)) => RunResult::Failed(e),
             Err(p) => RunResult::Failed(format!("panic: {p}")),
         };
-        let (python, answer) = self.run_python("numbers", &test.query, args, &[]);
+        let (python, answer) = self.run_python("numbers", &test.query, args, &[], false);
         let (non, mix) = Self::args_facts(args);
         self.e2e.borrow_mut().insert(line.to_string(), E2e { rust, python, args_nonconvertible: non, args_int_repr_mix: mix });
         Some(answer)
     }
 
-    fn eval_e2e_kinds(&self, line: &str, seed: u64, q: usize, args: &BTreeMap<String, Py>) -> Option<String> {
+    fn eval_e2e_kinds(&self, line: &str, seed: u64, q: usize, args: &BTreeMap<String, Py>, wrap: bool) -> Option<String> {
         let (_, query) = KINDS_QUERIES.get(q)?;
         let items = kinds_items(seed);
         let (non, mix) = Self::args_facts(args);
@@ -758,7 +790,7 @@ impl C27 {
                 Err(p) => RunResult::Failed(format!("panic: {p}")),
             }
         };
-        let (python, answer) = self.run_python("kinds", query, args, &items);
+        let (python, answer) = self.run_python("kinds", query, args, &items, wrap);
         self.e2e.borrow_mut().insert(line.to_string(), E2e { rust, python, args_nonconvertible: non, args_int_repr_mix: mix });
         Some(answer)
     }
@@ -868,6 +900,49 @@ fn py_pool(tier: Tier, rng: &mut Rng) -> Vec<(Py, &'static str)> {
         (l(vec![f(0.0), f(-0.0), f(5e-324)]), "nt:list"),
     ];
     out.extend(lists);
+    // instances of SUBCLASSES of the built-in types: classified by kind, returned as the plain base type
+    let sub = |how: &str, inner: Py| Py::Sub(how.to_string(), Box::new(inner));
+    let subs: Vec<Py> = vec![
+        sub("strsub", s("ab")),
+        sub("strsub", s("")),
+        sub("strsub", Py::Str("a\"b\\\n日本".as_bytes().to_vec())),
+        sub("strmixin", s("abc")),
+        sub("strmixin", s("")),
+        sub("strenum", s("xyz")),
+        sub("intsub", i(5)),
+        sub("intsub", i(-1)),
+        sub("intsub", i(p2(63))),
+        sub("intsub", i(p2(64) - 1)),
+        sub("intsub", i(p2(64))),
+        sub("intsub", i(-p2(63) - 1)),
+        sub("intenum", i(7)),
+        sub("intenum", i(0)),
+        sub("intenum", i(1)),
+        sub("intenum", i(p2(63))),
+        sub("intenum", i(p2(64))),
+        sub("floatsub", f(1.5)),
+        sub("floatsub", f(-0.0)),
+        sub("floatsub", Py::NonFinite("pnan")),
+        sub("floatsub", Py::NonFinite("pinf")),
+        sub("listsub", l(vec![])),
+        sub("listsub", l(vec![i(1), i(2)])),
+        sub("listsub", l(vec![sub("strsub", s("a")), s("b"), Py::None])),
+        sub("listsub", l(vec![i(1), s("a")])),
+        sub("tuple", l(vec![i(1), i(2)])),
+        sub("tuple", l(vec![])),
+        l(vec![sub("strsub", s("a")), Py::None, s("b")]),
+        l(vec![sub("strmixin", s("a")), sub("strenum", s("b")), sub("strsub", s("c"))]),
+        l(vec![sub("intsub", i(1)), i(p2(63)), sub("intenum", i(3))]),
+        l(vec![sub("intenum", i(1)), Py::Bool(true)]),
+        l(vec![sub("floatsub", f(0.5)), f(2.0)]),
+        l(vec![sub("floatsub", f(0.5)), sub("intsub", i(2))]),
+        l(vec![sub("listsub", l(vec![sub("strsub", s("x"))])), l(vec![s("y")])]),
+        l(vec![sub("tuple", l(vec![i(1)])), l(vec![i(2)])]),
+        l(vec![sub("strsub", s("a")), sub("intsub", i(1))]),
+    ];
+    for p in subs {
+        out.push((p, "nt:py-subclass"));
+    }
     // seeded random objects: images of random Rust values plus random raw objects
     let extra = if tier == Tier::Quick { 60 } else { 3000 };
     for _ in 0..extra {
@@ -936,6 +1011,21 @@ fn same_kind_py(rng: &mut Rng, proto: &Py, depth: usize) -> Py {
     }
 }
 
+/// the same object with str / int / float / list replaced by instances of subclasses
+fn to_subclasses(p: &Py, rng: &mut Rng) -> Py {
+    let sub = |how: &str, inner: Py| Py::Sub(how.to_string(), Box::new(inner));
+    match p {
+        Py::Str(_) => sub(*rng.pick(&["strsub", "strmixin", "strenum"]), p.clone()),
+        Py::Int(_) => sub(*rng.pick(&["intsub", "intenum"]), p.clone()),
+        Py::Float(_) => sub("floatsub", p.clone()),
+        Py::List(l) => {
+            let inner = Py::List(l.iter().map(|x| to_subclasses(x, rng)).collect());
+            if rng.chance(1, 2) { sub("listsub", inner) } else { inner }
+        }
+        other => other.clone(),
+    }
+}
+
 fn args_sexp(args: &BTreeMap<String, Py>) -> Sexp {
     Sexp::call("args", args.iter().map(|(k, v)| Sexp::list(vec![Sexp::atom(k.clone()), py_to_sexp(v)])).collect())
 }
@@ -966,8 +1056,8 @@ impl Prop for C27 {
 (py-from P): the Python object P is passed as a query argument; the exact Rust value it became is read from the engine's argument-type error text; model = fromPy. \
 (py-rt P): P is returned as a property value by a Python adapter and read back as a query output (Py->Rust->Py); model = fromPy then toPy; a conversion failure is a panic of the shim. \
 (py-to V): the Rust value V reaches Python as a literal edge parameter received by the Python adapter (only values the frontend produces from a literal: no Uint64 below 2^63, no enums, typed lists up to depth 2); model = toPy. \
-(e2e-numbers <file> (args..)): a query file of trustfall_core/test_data/tests/valid_queries with schema_name numbers is run by the Rust engine over the Rust NumbersAdapter and by execute_query over a line-by-line Python mirror of that adapter; (e2e-kinds <seed> <query#> (args..)): the same over a seeded table of items with one property per value kind (Int both representations, Float, String, Boolean, lists, nested lists) and filters driven by arguments of each kind. For e2e requests the model only predicts whether the argument dictionary converts (accepted / rejected <kind>); rows are compared by the oracle, not by the model. \
-P ranges over None, bools, ints at every boundary of the i64/u64/f64 ranges (incl. 2^53+1, 2^63, 2^64-1, 2^64, ties of float rounding, 2^1024-2^970), finite floats incl. ±0 and subnormals, non-finite floats, strings (incl. quotes, control characters, non-BMP), unsupported objects (tuple, dict, bytes, set, object), lists (empty, all-None, homogeneous, int-representation mixes, kind mixes, nested to depth 3, bad elements) and seeded random objects. A case is non-trivial when the conversion is not the identity on an in-range scalar: boundary or out-of-range ints, floats, strings, any list, unsupported objects, and every end-to-end run that produced at least one row or exercised an argument. \
+(e2e-numbers <file> (args..)): a query file of trustfall_core/test_data/tests/valid_queries with schema_name numbers is run by the Rust engine over the Rust NumbersAdapter and by execute_query over a line-by-line Python mirror of that adapter; (e2e-kinds <seed> <query#> (args..)): the same over a seeded table of items with one property per value kind (Int both representations, Float, String, Boolean, lists, nested lists) and filters driven by arguments of each kind; with a trailing `sub` the Python adapter returns every str / int / float / list property value as a subclass instance and the arguments are subclass instances too (rows must still equal the Rust rows). For e2e requests the model only predicts whether the argument dictionary converts (accepted / rejected <kind>); rows are compared by the oracle, not by the model. \
+P ranges over None, bools, ints at every boundary of the i64/u64/f64 ranges (incl. 2^53+1, 2^63, 2^64-1, 2^64, ties of float rounding, 2^1024-2^970), finite floats incl. ±0 and subnormals, non-finite floats, strings (incl. quotes, control characters, non-BMP), unsupported objects (tuple, dict, bytes, set, object), instances of SUBCLASSES of str / int / float / list (plain subclass, (str, Enum) member, enum.StrEnum, enum.IntEnum; in range and out of range; as scalars, as list elements, as the list itself; tuples for lists) which must be classified by kind and come back as the plain base type, lists (empty, all-None, homogeneous, int-representation mixes, kind mixes, nested to depth 3, bad elements) and seeded random objects. A case is non-trivial when the conversion is not the identity on an in-range scalar: boundary or out-of-range ints, floats, strings, any list, unsupported objects, and every end-to-end run that produced at least one row or exercised an argument. \
 ORACLE (independent specification in the harness): convertible objects (ints in [-2^63,2^64), finite floats, str, bool, None, lists of one kind apart from None) are accepted and convert to the equal value of the right kind, non-convertible ones are rejected; round trips return the identical object; Python rows equal Rust rows (ordered, exact Python types)."
     }
     fn generate(&self, tier: Tier, rng: &mut Rng) -> Vec<Case> {
@@ -1023,6 +1113,18 @@ ORACLE (independent specification in the harness): convertible objects (ints in 
                     ));
                 }
             }
+            // the same table served by an adapter that returns subclass instances, arguments given as
+            // subclass instances too
+            for q in 0..KINDS_QUERIES.len() {
+                let args: BTreeMap<String, Py> = kinds_args(q, &items, rng).into_iter().map(|(k, v)| (k, to_subclasses(&v, rng))).collect();
+                out.push(Case::new(
+                    Sexp::call(
+                        "e2e-kinds",
+                        vec![Sexp::atom(seed.to_string()), Sexp::atom(q.to_string()), args_sexp(&args), Sexp::atom("sub")],
+                    ),
+                    &["e2e-kinds", KINDS_QUERIES[q].0, "nt:py-subclass"],
+                ));
+            }
             let _ = k;
         }
         out
@@ -1063,7 +1165,9 @@ ORACLE (independent specification in the harness): convertible objects (ints in 
             }
             ("e2e-kinds", [seed, q, ..]) => {
                 let a = Self::parse_args(args)?;
-                self.eval_e2e_kinds(&request.to_string(), seed.as_atom()?.parse().ok()?, q.as_atom()?.parse().ok()?, &a)
+                // trailing atom `sub`: the Python adapter hands out str/int/float/list SUBCLASS instances
+                let wrap = args.iter().any(|x| x.as_atom() == Some("sub"));
+                self.eval_e2e_kinds(&request.to_string(), seed.as_atom()?.parse().ok()?, q.as_atom()?.parse().ok()?, &a, wrap)
             }
             _ => None,
         }
@@ -1126,7 +1230,7 @@ ORACLE (independent specification in the harness): convertible objects (ints in 
                                         &e.line,
                                     );
                                 }
-                            } else if got != *p && sexp_to_py(&got) != Some(py.clone()) {
+                            } else if got != *p && sexp_to_py(&got) != Some(plain(&py)) {
                                 fail("py-rt-unfaithful".to_string(), format!("{} came back as {got}", e.line), &e.line);
                             }
                         }
